@@ -11,14 +11,13 @@ from the implementation.
 
 Reading fixed here.  "Learned range" = the set the code accepts: scaled coordinates in `[0.0049, 0.9951]`, i.e. the
 box `[lo, hi]` fixed at learning widened by `(hi - lo) / 9900` per dimension (`removed_iff_out_of_range`).  "Class" =
-the value `np.argmax` returns = the INDEX of the classificator; it is the label of that class only when the labels of
-the learning data are `0..k-1` (`class_index_is_label_partial`, `class_index_not_label_counterexample`).
+the LABEL of the classificator with the first maximal density (`_learning_data.get_labels()[np.argmax(row)]`).
 
-Defects of the unchanged code that are mirrored in the model and proved here as counterexamples:
-`evaluate_after_test_fails` (+ `_counterexample`), `class_index_not_label_counterexample`,
-`prescaled_origin_counterexample`.  (The 1-D `IndexError` of `DataSet.same_scaling` was repaired in the code — fix
-94a0133 —; the former `removal_1d_counterexample` is replaced by the positive `removal_1d_example`: the general
-theorems below hold in every dimension, including 1.)
+History: the unchanged code had four defects that earlier versions of this file proved as counterexamples
+(`evaluate()` raising after `test_data`, class index returned instead of the label, pre-scaled data with another origin
+accepted, 1-D `IndexError`).  All four are repaired in the code; the model mirrors the repaired code and the
+counterexamples are replaced by the positive statements `evaluate_after_history`, `test_extends_evaluation`,
+`class_is_argmax` (label clause), `prescaled_accepted_is_learning_scaling`, `removal_1d_example`.
 -/
 namespace SparseSpace.C19
 open SparseSpace.Classify
@@ -39,20 +38,34 @@ def exIn : Input :=
 
 /-! ## 1. arg-max -/
 
-/-- **class_is_argmax** (`__call__`): every returned pair (position, class) has `class < k`, no class has a larger
-density at that position, and every class with a smaller index has a strictly smaller one (numpy's first maximum);
-the position is the (kept) scaled position of a sample of the input. -/
+/-- the clauses "arg-max with first-maximum tie-break, returned as the label of that class" for one position -/
+def IsArgmaxClass (dens : Nat → Pt → Rat) (st : State) (p : Pt) (c : Int) : Prop :=
+  ∃ j, j < st.k ∧ (∀ c', c' < st.k → dens c' p ≤ dens j p) ∧ (∀ c', c' < j → dens c' p < dens j p) ∧
+    c = (labelSet st.learning).getD j (-1) ∧
+    ((labelSet st.learning).length = st.k → (labelSet st.learning)[j]? = some c)
+
+theorem isArgmaxClass_classAt (dens : Nat → Pt → Rat) (st : State) (hk : 0 < st.k) (p : Pt) :
+    IsArgmaxClass dens st p (classAt dens st p) := by
+  have ha := argmax_densRow dens st.k hk p
+  refine ⟨argmaxFirst (densRow dens st.k p), ha.1, ha.2.1, ha.2.2, rfl, ?_⟩
+  intro hlen
+  unfold classAt classOf
+  rw [List.getD_eq_getElem?_getD, List.getElem?_eq_getElem (by rw [hlen]; exact ha.1)]
+  rfl
+
+/-- **class_is_argmax** (`__call__`): every returned pair (position, class): some classificator index `j < k` has a
+density at that position that no class exceeds and that every smaller index stays strictly below (numpy's first
+maximum), and the returned class is the LABEL of that classificator (the `j`-th label of the learning data, one
+classificator per label); the position is the (kept) scaled position of a sample of the input. -/
 theorem class_is_argmax (dens : Nat → Pt → Rat) (st st' : State) (inp : Input) (r : CallResult)
     (hk : 0 < st.k) (h : call dens st inp = .ok (st', r)) :
-    ∀ qc ∈ r.evaluated, qc.2 < st.k ∧ (∀ c, c < st.k → dens c qc.1 ≤ dens qc.2 qc.1) ∧
-      (∀ c, c < qc.2 → dens c qc.1 < dens qc.2 qc.1) ∧
+    ∀ qc ∈ r.evaluated, IsArgmaxClass dens st qc.1 qc.2 ∧
       ∃ pts, internalPts st inp = .ok pts ∧ ∃ s ∈ pts, outOfRange s.pt = false ∧ qc.1 = s.pt := by
   obtain ⟨_, _, pts, hpts, _, _, hev, _⟩ := call_ok h
   intro qc hqc
   rw [hev] at hqc
   obtain ⟨s, hs, rfl⟩ := List.mem_map.mp hqc
-  have ha := argmax_densRow dens st.k hk s.pt
-  refine ⟨ha.1, ha.2.1, ha.2.2, pts, hpts, s, (List.mem_filter.mp hs).1, ?_, rfl⟩
+  refine ⟨isArgmaxClass_classAt dens st hk s.pt, pts, hpts, s, (List.mem_filter.mp hs).1, ?_, rfl⟩
   have := (List.mem_filter.mp hs).2
   simpa using this
 
@@ -60,27 +73,25 @@ theorem class_is_argmax (dens : Nat → Pt → Rat) (st st' : State) (inp : Inpu
 in-range ones. -/
 theorem class_is_argmax_test (dens : Nat → Pt → Rat) (st st' : State) (inp : Input) (r : TestResult)
     (hk : 0 < st.k) (h : test dens st inp = .ok (st', r)) :
-    ∀ sc ∈ r.used, sc.2 < st.k ∧ (∀ c, c < st.k → dens c sc.1.pt ≤ dens sc.2 sc.1.pt) ∧
-      (∀ c, c < sc.2 → dens c sc.1.pt < dens sc.2 sc.1.pt) ∧ 0 ≤ sc.1.label ∧ outOfRange sc.1.pt = false := by
+    ∀ sc ∈ r.used, IsArgmaxClass dens st sc.1.pt sc.2 ∧ 0 ≤ sc.1.label ∧ outOfRange sc.1.pt = false := by
   obtain ⟨_, _, pts, _, _, _, hu, _, _, _⟩ := test_ok h
   intro sc hsc
   rw [hu] at hsc
   obtain ⟨s, hs, rfl⟩ := List.mem_map.mp hsc
-  have ha := argmax_densRow dens st.k hk s.pt
   have hlab : decide (0 ≤ s.label) = true := (List.mem_filter.mp hs).2
   have hin : (!outOfRange s.pt) = true := (List.mem_filter.mp (List.mem_filter.mp hs).1).2
-  refine ⟨ha.1, ha.2.1, ha.2.2, by simpa using hlab, by simpa using hin⟩
+  exact ⟨isArgmaxClass_classAt dens st hk s.pt, by simpa using hlab, by simpa using hin⟩
 
-example : 0 < exSt.k ∧ (call exDens exSt exIn).map (·.2.evaluated) =
+example : 0 < exSt.k ∧ (labelSet exSt.learning).length = exSt.k ∧ (call exDens exSt exIn).map (·.2.evaluated) =
     .ok [([101/400, 101/400], 0), ([199/200, 199/200], 1), ([9901/2000000, 1/2], 0), ([1/2, 1/2], 0)] := by
   decide +kernel
 
 /-! ## 2. the scaling applied to later data is the learning scaling -/
 
 /-- later calls never touch what was fixed at learning time (`_data_range`, `_scale_factor`, number of
-classificators, learning / testing / omitted data) -/
+classificators, learning data) -/
 theorem later_calls_keep_scaling (dens : Nat → Pt → Rat) (st : State) (ops : List Op) :
-    SameLearned st (run dens st ops) := (run_frame dens st ops).1
+    SameLearned st (run dens st ops) := (run_extends dens st ops).same
 
 /-- **scaling_is_learning_scaling**: after ANY history of later calls, `__call__` on a data set that was not scaled
 beforehand classifies exactly the samples whose image under the affine map stored at learning time
@@ -91,7 +102,7 @@ theorem scaling_is_learning_scaling (dens : Nat → Pt → Rat) (st st' : State)
     r.evaluated.map (·.1) = (inp.data.map (fun s => scalePt st.sc s.pt)).filter (fun y => !outOfRange y) ∧
     r.removed = (inp.data.map (fun s => { s with pt := scalePt st.sc s.pt })).filter (fun s => outOfRange s.pt) := by
   obtain ⟨_, _, pts, hpts, _, _, hev, hrem⟩ := call_ok h
-  have hsc : (run dens st ops).sc = st.sc := (run_frame dens st ops).1.sc.symm
+  have hsc : (run dens st ops).sc = st.sc := (run_extends dens st ops).same.sc.symm
   unfold internalPts at hpts
   rw [hpre] at hpts
   simp only at hpts
@@ -108,13 +119,13 @@ theorem scaling_is_learning_scaling (dens : Nat → Pt → Rat) (st st' : State)
 history of earlier `__call__` / `test_data` / `evaluate` calls at all -/
 theorem call_history_independent (dens : Nat → Pt → Rat) (st : State) (ops : List Op) (inp : Input) :
     (call dens (run dens st ops) inp).map (·.2) = (call dens st inp).map (·.2) :=
-  (call_congr dens (run_frame dens st ops).1 inp).symm
+  (call_congr dens (run_extends dens st ops).same inp).symm
 
 /-- … and neither does the result of `test_data` (tested samples with classes, set-aside samples, removed samples,
 summary) -/
 theorem test_history_independent (dens : Nat → Pt → Rat) (st : State) (ops : List Op) (inp : Input) :
     (test dens (run dens st ops) inp).map (·.2) = (test dens st inp).map (·.2) :=
-  (test_congr dens (run_frame dens st ops).1 inp).symm
+  (test_congr dens (run_extends dens st ops).same inp).symm
 
 example : (call exDens (run exDens exSt [.test exIn, .call exIn, .evaluate, .test exIn]) exIn).map (·.2)
     = (call exDens exSt exIn).map (·.2) ∧ (run exDens exSt [.test exIn, .call exIn]).classes ≠ exSt.classes :=
@@ -188,7 +199,7 @@ tested + set aside + removed = input (labels are `≥ -1` in every `DataSet`). -
 theorem summary_consistent (dens : Nat → Pt → Rat) (st st' : State) (inp : Input) (r : TestResult)
     (hlab : ∀ s ∈ inp.data, -1 ≤ s.label) (h : test dens st inp = .ok (st', r)) :
     r.summary.total = r.used.length ∧ 0 < r.summary.total ∧
-    r.summary.wrong = r.used.countP (fun p => decide (p.1.label ≠ (p.2 : Int))) ∧
+    r.summary.wrong = r.used.countP (fun p => decide (p.1.label ≠ p.2)) ∧
     r.summary.wrong ≤ r.summary.total ∧
     r.summary.pct = 1 - (r.summary.wrong : Rat) / (r.summary.total : Rat) ∧
     0 ≤ r.summary.pct ∧ r.summary.pct ≤ 1 ∧
@@ -266,13 +277,13 @@ example : (∀ s ∈ exIn.data, -1 ≤ s.label) ∧
 /-! ## 5. later calls do not change what was assigned to earlier data -/
 
 /-- **earlier_classes_stable**: for every history of later calls (a) everything fixed at learning is unchanged,
-(b) the stored classes and density rows of earlier test data are a PREFIX of the later ones (only appended to, never
-overwritten or reordered), (c) the stored classes remain the first arg-max of the stored density rows, and
-(d) re-submitting any earlier data set gives the same result as the first time (`call_history_independent`). -/
+(b) the stored classes, density rows, test samples and set-aside samples of earlier calls are a PREFIX of the later
+ones (only appended to, never overwritten or reordered), (c) test set and stored classes grow by the same amount,
+(d) the stored classes remain the class of the first arg-max of the stored density rows, and (e) re-submitting any
+earlier data set gives the same result as the first time (`call_history_independent`). -/
 theorem earlier_classes_stable (dens : Nat → Pt → Rat) (st : State) (ops : List Op) :
-    SameLearned st (run dens st ops) ∧ st.classes <+: (run dens st ops).classes ∧
-    st.densities <+: (run dens st ops).densities ∧ (Aligned st → Aligned (run dens st ops)) :=
-  ⟨(run_frame dens st ops).1, (run_frame dens st ops).2.1, (run_frame dens st ops).2.2, run_aligned dens st ops⟩
+    Extends st (run dens st ops) ∧ (Aligned st → Aligned (run dens st ops)) :=
+  ⟨run_extends dens st ops, run_aligned dens st ops⟩
 
 /-- `__call__` leaves the object EXACTLY as it was (the density rows it appends are deleted again) -/
 theorem call_leaves_state (dens : Nat → Pt → Rat) (st st' : State) (inp : Input) (r : CallResult)
@@ -309,30 +320,52 @@ theorem evaluate_consistent (st : State) (sm : Summary) (h : evaluate st = .ok s
   refine ⟨by rw [htot, hlen], by rw [htot]; exact hpos, by rw [hwrong, mismatches_eq_countP], ?_, hpct⟩
   rw [hwrong, htot]; exact mismatches_le _ _
 
-/-- **DEFECT (mirrored)**: `test_data` discards the results of `self._testing_data.concatenate(used_data)` (and of the
-two other `concatenate` calls) while it appends to `_calculated_classes_testset`; so after ONE successful
-`test_data`, whatever is called afterwards, `evaluate()` raises for the rest of the object's life.
-The full clause of the property — "the evaluation summary is consistent with the returned classes and the true
-labels" for `evaluate()` after further testing — is FALSE of the unchanged code; what holds is
-`evaluate_consistent` (as long as `evaluate()` returns) and `summary_consistent` (the summary `test_data` returns). -/
-theorem evaluate_after_test_fails (dens : Nat → Pt → Rat) (st st' : State) (inp : Input) (r : TestResult) (ops : List Op)
-    (hinv : st.testing.length ≤ st.classes.length) (h : test dens st inp = .ok (st', r)) :
-    ∃ e, evaluate (run dens st' ops) = .error e := by
-  obtain ⟨_, _, pts, _, hne, hst, _⟩ := test_ok h
-  apply evaluate_error_of_lt
-  obtain ⟨hsame, hpre, _⟩ := run_frame dens st' ops
-  have h1 : (run dens st' ops).testing.length = st.testing.length := by
-    rw [← hsame.testing, hst]
-  have h2 : st'.classes.length ≤ (run dens st' ops).classes.length := hpre.length_le
-  have h3 : st.classes.length < st'.classes.length := by
-    rw [hst]
-    simp only [List.length_append, List.length_map]
-    have : 0 < (labelled (keptOf pts)).length := List.length_pos_iff.mpr hne
-    omega
-  omega
+/-- **evaluate() after any history** (the former defect `evaluate_after_test_fails`, repaired in the code): from a
+learned object with one stored class per test sample, after ANY history of `__call__` / `test_data` / `evaluate` calls
+the object still has one stored class per test sample, and — if it has test samples at all — `evaluate()` returns the
+summary of ALL of them (those set apart at learning and those of every `test_data` call), consistent in the sense of
+`evaluate_consistent`. -/
+theorem evaluate_after_history (dens : Nat → Pt → Rat) (st : State) (ops : List Op) (hp : st.performed = true)
+    (hbal : st.testing.length = st.classes.length) :
+    (run dens st ops).testing.length = (run dens st ops).classes.length ∧
+    ((run dens st ops).testing ≠ [] → ∃ sm, evaluate (run dens st ops) = .ok sm ∧
+      summarize ((run dens st ops).testing.map (·.label)) (run dens st ops).classes = .ok sm) := by
+  have he := run_extends dens st ops
+  have hb := he.balance
+  have hlen : (run dens st ops).testing.length = (run dens st ops).classes.length := by omega
+  refine ⟨hlen, fun hne => ?_⟩
+  exact evaluate_of_balanced _ (he.same.performed ▸ hp) hne hlen
 
-theorem evaluate_after_test_counterexample :
-    (evaluate exSt = .ok ⟨1, 2, 1/2⟩) ∧ evaluate (step exDens exSt (.test exIn)) = .error .lengthMismatch := by
+/-- one successful `test_data` extends the object's own evaluation additively: the test set grows by the tested
+samples, and `evaluate()` afterwards counts `total + total'` samples with `wrong + wrong'` mismatches, where
+`(wrong', total')` is the summary `test_data` returned -/
+theorem test_extends_evaluation (dens : Nat → Pt → Rat) (st st' : State) (inp : Input) (r : TestResult) (sm : Summary)
+    (h : test dens st inp = .ok (st', r)) (hev : evaluate st = .ok sm) :
+    st'.testing = st.testing ++ r.used.map (·.1) ∧ st'.classes = st.classes ++ r.used.map (·.2) ∧
+    ∃ sm', evaluate st' = .ok sm' ∧ sm'.total = sm.total + r.summary.total ∧
+      sm'.wrong = sm.wrong + r.summary.wrong := by
+  obtain ⟨hp, hne0, hlen, hs⟩ := evaluate_ok hev
+  obtain ⟨_, _, pts, _, _, hst, hu, _, _, hsum⟩ := test_ok h
+  obtain ⟨_, _, htot, hwrong, _⟩ := summarize_ok hs
+  obtain ⟨hl2, _, htot2, hwrong2, _⟩ := summarize_ok hsum
+  have ht : st'.testing = st.testing ++ r.used.map (·.1) := by
+    rw [hst, hu, List.map_map]; simp [Function.comp_def]
+  have hc : st'.classes = st.classes ++ r.used.map (·.2) := by
+    rw [hst, hu, List.map_map]; simp [Function.comp_def]
+  have hlen' : st'.testing.length = st'.classes.length := by rw [ht, hc]; simp [hlen]
+  have hne' : st'.testing ≠ [] := by rw [ht]; simp [hne0]
+  have hp' : st'.performed = true := by rw [hst]; exact hp
+  obtain ⟨sm', he', hs'⟩ := evaluate_of_balanced st' hp' hne' hlen'
+  obtain ⟨_, _, htot', hwrong', _⟩ := summarize_ok hs'
+  refine ⟨ht, hc, sm', he', ?_, ?_⟩
+  · rw [htot', htot, htot2, hst]; simp
+  · rw [hwrong', hwrong, hwrong2, hst]
+    simp only [List.map_append]
+    rw [mismatches_append _ _ _ _ (by simpa using hlen)]
+
+theorem evaluate_after_test_example :
+    (evaluate exSt = .ok ⟨1, 2, 1/2⟩) ∧ evaluate (step exDens exSt (.test exIn)) = .ok ⟨2, 5, 3/5⟩ ∧
+    (step exDens exSt (.test exIn)).omitted = [⟨[9901/2000000, 1/2], -1⟩] := by
   decide +kernel
 
 /-! ## 7. the learning scaling itself; set-aside at initialisation -/
@@ -426,39 +459,35 @@ example : (initScale [⟨[0, 4], 1⟩, ⟨[2, 0], 0⟩, ⟨[1, 1], -1⟩, ⟨[5,
     (initScale [⟨[0, 4], 1⟩] (some ([0, 0], [2, 0]))).map (·.1) = .error .invalidRange := by
   decide +kernel
 
-/-! ## 8. class index versus label -/
+/-! ## 8. the returned class is a label (the former defect "class index ≠ label", repaired in the code) -/
 
-/-- if the labels of the learning data are exactly `0, 1, .., k-1`, the class index IS the label of the class -/
-theorem class_index_is_label_partial (learning : Data) (k : Nat)
-    (h : labelSet learning = (List.range k).map (fun (i : Nat) => (i : Int))) :
-    ∀ c, c < k → (labelSet learning)[c]? = some (c : Int) := by
-  intro c hc
-  rw [h]
-  simp [hc]
-
-/-- **DEFECT (mirrored)**: with labels `{1, 2}` the classificator of label 1 has index 0; a sample whose largest
-density is the one of label 1 is returned with "class" 0 — not a label of the data set — and `test_data` counts it
-as wrong although it was assigned to its true class. -/
-theorem class_index_not_label_counterexample :
+/-- with labels `{1, 2}` the sample whose largest density is the one of label 1 is returned as class 1 and counted as
+correct (`IsArgmaxClass` states this in general: the class is the `j`-th label of the learning data) -/
+theorem class_is_label_example :
     let st : State := { exSt with learning := [⟨[1/200, 1/200], 1⟩, ⟨[199/200, 199/200], 2⟩], k := 2 }
     labelSet st.learning = [1, 2] ∧
     (test exDens st ⟨[⟨[1/2, 0], 1⟩], none⟩).map (fun x => (x.2.used, x.2.summary)) =
-      .ok ([(⟨[101/400, 101/400], 1⟩, 0)], ⟨1, 1, 0⟩) := by
+      .ok ([(⟨[101/400, 101/400], 1⟩, 1)], ⟨0, 1, 1⟩) := by
   decide +kernel
 
-/-! ## 9. further mirrored defects -/
+/-! ## 9. data sets scaled beforehand (the former defect "other origin accepted", repaired in the code) -/
 
-/-- **DEFECT (mirrored)**: a data set that its owner scaled with `scale_range((0.005, 0.995))` is accepted unchanged as
-soon as its per-dimension widths equal those of the learning data (`same_scaling` compares range and factor, not the
-origin): the sample `(3, 3)` of a data set spanning `[2,4] × [1,5]` is classified at position `(1/2, 1/2)`, while its
-position in the learning scaling (`[0,2] × [-1,3]`) is out of range.  So `scaling_is_learning_scaling` needs
-`inp.pre = none`. -/
-theorem prescaled_origin_counterexample :
-    let d : Data := [⟨[2, 1], 0⟩, ⟨[4, 5], 1⟩, ⟨[3, 3], 0⟩]
-    (call exDens exSt ⟨d, some (1/200, 199/200)⟩).map (fun x => x.2.evaluated.map (·.1)) =
+/-- **a pre-scaled data set is accepted only if its scaling IS the learning scaling**: whenever `_internal_scaling`
+accepts a (rectangular, non-empty) data set its owner scaled with `scale_range`, the coordinates used are exactly
+the images of the raw samples under the map stored at learning time — so `scaling_is_learning_scaling` extends to
+pre-scaled input; every other pre-scaling is refused -/
+theorem prescaled_accepted_is_learning_scaling (st : State) (d : Data) (a b : Rat) (pts : Data) (hne : d ≠ [])
+    (hrect : ∀ s ∈ d, s.pt.length = st.sc.length) (h : internalPts st ⟨d, some (a, b)⟩ = .ok pts) :
+    pts = d.map (fun s => { s with pt := scalePt st.sc s.pt }) :=
+  prescaled_accepted st d a b pts hne hrect h
+
+/-- same widths, other origin (`[2,4] × [1,5]` against the learned `[0,2] × [-1,3]`): refused; the learning box itself,
+scaled by its owner: accepted, at the learning positions; another target range: refused -/
+theorem prescaled_example :
+    (call exDens exSt ⟨[⟨[2, 1], 0⟩, ⟨[4, 5], 1⟩, ⟨[3, 3], 0⟩], some (1/200, 199/200)⟩).map (·.2) = .error .scalingMismatch ∧
+    (call exDens exSt ⟨[⟨[0, -1], 0⟩, ⟨[2, 3], 1⟩, ⟨[1, 1], 0⟩], some (1/200, 199/200)⟩).map (fun x => x.2.evaluated.map (·.1)) =
       .ok [[1/200, 1/200], [199/200, 199/200], [1/2, 1/2]] ∧
-    outOfRange (scalePt exSt.sc [3, 3]) = true ∧
-    (call exDens exSt ⟨d, some (0, 1)⟩).map (·.2) = .error .scalingMismatch := by
+    (call exDens exSt ⟨[⟨[0, -1], 0⟩, ⟨[2, 3], 1⟩], some (0, 1)⟩).map (·.2) = .error .scalingMismatch := by
   decide +kernel
 
 /-- one-dimensional data (after the repair of `DataSet.same_scaling`): several out-of-range samples are removed and
